@@ -59,3 +59,11 @@ chk("C19","exploration",
  "Generated fill / overwrite / empty cycles with thousands of leaves; after every step the decoder computes the exact partition of ln and bbn pages below the bump into live / free-list pages / free entries (any other page is a leak) and compares hash_table_utilization() with the FULL meta bytes on disk.",
  "Partition is exact per generated history; the 'frontier does not keep growing' clause is covered through the partition (a page below the bump is always reusable) rather than by a separate growth bound.",
  "property-based testing: independent on-disk decoder as oracle (allocation partition) over generated histories (proptest)","DESIGN.md §3 C19")
+chk("C11","exploration",
+ "Generated overlay trees (chains, forks, drops, commits in and out of order, plain commits and rollbacks in between) judged against a model of overlay status and store version: reads/proofs/roots through valid chains, acceptance of SessionParams::overlay exactly for the complete live chain (six kinds of wrong chains probed), acceptance/rejection of overlay commits, no effect of rejected commits / dropped overlays, decoded on-disk state and rollback history after the sequence.",
+ "Sessions are never built on stale or broken chains except as probes. The corner 'parentless overlay whose base root is current again after commit+rollback' is known finding KF-C12-1 and excluded (counted).",
+ "property-based testing: stateful generation of overlay trees + model oracle (proptest)","DESIGN.md §3 C11")
+chk("C13","exploration",
+ "The same generated history is executed under the 1-worker baseline and generated alternative configurations (workers, I/O workers, warm-up, caches, upper levels, pre-population, buckets/seed, hasher), each also under seeded schedule perturbation at nomt's lock acquisition points; every run is judged against the reference model (roots per commit, witnesses, values, proofs), hence runs agree with each other.",
+ "Thread interleavings are sampled, not enumerated: perturbation (yield / sleep at hook points) diversifies schedules reproducibly in distribution only.",
+ "property-based testing: differential across configurations + metamorphic schedule perturbation (proptest)","DESIGN.md §3 C13")
